@@ -89,7 +89,7 @@ package core
 //@   ensures imp(result1 == nil, scanner.scannerInv(core.scanner))
 
 //@ func (*JApiCore).processInclude(core, keyword)
-//@   property C14,C01,C09,C19
+//@   property C14,C01,C09,C19,C07
 //@   requires coreScanInv(core) && keyword != nil && scanner.lexOK(keyword) && keyword.begin < len(keyword.file.content.data)
 //@   requires keyword.file == core.scanner.file
 //@   modifies core.scanner, scanner.nextMod(core.scanner),
@@ -98,6 +98,9 @@ package core
 //@   ensures[C09,@include-keeps-pending] core.currentDirective == old(core.currentDirective) && core.currentContextDirective == old(core.currentContextDirective)
 //@   ensures[C19,@ban-checked] imp(banned(core, directive.Include), result != nil && result.File == keyword.file && result.Index == keyword.begin)
 //@   ensures scanner.itemsOK(core.scannersStack)
+//@   ensures[C07,C09,@include-position] imp(result == nil, len(core.scannersStack.stack) == old(len(core.scannersStack.stack)) + 1
+//@       && core.scannersStack.stack[len(core.scannersStack.stack)-1].scanner == old(core.scanner)
+//@       && core.scannersStack.stack[len(core.scannersStack.stack)-1].at == keyword.begin)
 
 // --- the scanning loop -------------------------------------------------------------------------------------------
 
@@ -158,6 +161,17 @@ package core
 // ---------------------------------------------------------------------------
 // Banned directives (C19). The set is written only by the option, before the build.
 //@ confined JApiCore.bannedDirectives writers WithBannedDirectives property C19
+// the option only ever adds to the set: bans given by several options accumulate
+//@ func WithBannedDirectives$1(c)
+//@   property C19
+//@   requires c != nil && dd != nil
+//@   modifies c.bannedDirectives, c.bannedDirectives[:]
+//@   ensures[C19,@ban-accumulates] forall(k, directive.Enumeration, imp(old(c.bannedDirectives != nil && has(c.bannedDirectives, k)), c.bannedDirectives != nil && has(c.bannedDirectives, k)))
+//@   ensures[C19,@ban-registers] forallp(j, at(*dd, j), imp((*dd).off <= j && j < (*dd).off + len(*dd), c.bannedDirectives != nil && has(c.bannedDirectives, at(*dd, j))))
+//@ func WithBannedDirectives$1 loop 1
+//@   invariant c.bannedDirectives != nil && 0 <= (*dd).off
+//@   invariant forall(k, directive.Enumeration, imp(old(c.bannedDirectives != nil && has(c.bannedDirectives, k)), has(c.bannedDirectives, k)))
+//@   invariant forallp(j, at(*dd, j), imp((*dd).off <= j && j < (*dd).off + rangeindex + 1, has(c.bannedDirectives, at(*dd, j))))
 //@ pred banned(core *JApiCore, t directive.Enumeration) := core.bannedDirectives != nil && has(core.bannedDirectives, t)
 
 //@ func (*JApiCore).setCurrentDirective(core, keyword, keywordCoords)
